@@ -371,7 +371,13 @@ class C04(Check):
             kind = (DH + ["pi", "slc-null", "slc-act"])[index % 8]
             return {"task": "pdu", "kind": kind, "wire": make(kind, w), "pseed": w.getrandbits(32), "full": "w3", "tier": tier}
         kind = PDU_KINDS[index % len(PDU_KINDS)]
-        case = {"task": "pdu", "kind": kind, "wire": make(kind, w), "pseed": w.getrandbits(32), "full": "w2" if arm == "full-w2" else None, "tier": tier}
+        gs = w.getrandbits(48)
+        try:
+            wire0 = make(kind, random.Random(gs))
+        except Exception:
+            # the library refused to build / serialise a PDU from legal field values: judged in execute(), where the same construction is repeated
+            return {"task": "pdu-build", "kind": kind, "gen_seed": gs}
+        case = {"task": "pdu", "kind": kind, "wire": wire0, "pseed": w.getrandbits(32), "full": "w2" if arm == "full-w2" else None, "tier": tier}
         if streams["knobs"].random() < 0.15:
             from checks import c19
 
@@ -424,6 +430,12 @@ class C04(Check):
             seen[key] = v
 
         task = case["task"]
+        if task == "pdu-build":
+            # serialise-then-parse starts with serialising: the construction that failed while the case was generated is repeated here, and an exception out
+            # of the library's own code is the violation C04.library-call-raised (driver: library_exception_is_violation)
+            make(case["kind"], random.Random(case["gen_seed"]))
+            res["digest"] = log.digest()
+            return res
         if task == "smallmix":
             # one receiver process parses slot-type words AND embedded-signalling words, interleaved in a seeded order (the sweeps above use
             # one code per process): whichever code, information value or word comes first must not matter to the other
